@@ -296,6 +296,10 @@ func TestC07_Concurrent(t *testing.T) {
 					ast.Lit(obj).With(ast.Step{Kind: ast.SField, Name: "id"}),
 					ast.Call("length", ast.A(ast.Lit(jv.VStr(strings.Repeat("s", 64+i+salt))))),
 					ast.RawS(strings.Repeat("r", 70+i) + strconv.Itoa(salt)),
+					// short and long literals that need decoding and differ per expression
+					ast.RawS("g" + strconv.Itoa(i) + "'i" + strconv.Itoa(salt)),
+					ast.RawS("back\\slash" + strconv.Itoa(10*i+salt) + "'" + strings.Repeat("x", i)),
+					ast.Lit(jv.VStr("q\"" + strconv.Itoa(i) + "\n" + strconv.Itoa(salt))),
 					g.Expr(vals[0], 1)}}}
 			case 0:
 				e = ast.Call(gen.Pick(t, "fn", []string{"sort", "reverse", "sort_by", "group_by", "merge", "join", "to_string"}), ast.A(g.Chain(vals[0], 1)))
